@@ -10,19 +10,55 @@ from props import _identity  # noqa: E402
 ID = 'C09'
 # modules whose functions must not keep state between calls (pyvc.statecheck.hidden_state_census, syntactic)
 HIDDEN_STATE_MODULES = ['src.ir.type_utils', 'src.ir.types']
-LEVEL = 'exploration'
-SIDECARS = []
-FUNCTIONS = []
+LEVEL = 'proof'
+SIDECARS = ['types_sub', 'types_ctor', 'cfg_common', 'search']
+FUNCTIONS = [
+    'src.ir.type_utils.to_type',
+    'src.ir.type_utils._find_types',
+    'src.ir.type_utils.find_subtypes',
+    'src.ir.type_utils.find_supertypes',
+    'src.ir.type_utils.find_irrelevant_type',
+]
 SIDECARS = SIDECARS + [x for x in _identity.SIDECARS if x not in SIDECARS]
 FUNCTIONS = FUNCTIONS + [f for f in _identity.FUNCTIONS if f not in FUNCTIONS]
-TRUSTED = []
-ASSUMPTIONS = [
-    'bounded stand-in only (labelled bounded, nothing is counted as proved): the searches are heuristic and randomised; '
-    'their results are compared with an independent declarative subtype relation on hand-written and random class tables '
-    '(all random paths enumerated where feasible) and on every query the generator / TypeOverwriting issue for fixed seeds',
+TRUSTED = [
+    '_construct_related_types (randomised, heuristic) is OUTSIDE the proof: its one contribution to a search result is the '
+    'uninterpreted ghost Related(...) (assumed well-formed); it is decided by the bounded part only',
+    'instantiate_type_constructor returns an instantiation InstOf(result, constructor) (C08); "an instantiation of a bare '
+    'generic class that is below T is below T" is the meaning of Sub for bare generic classes (rules con-plain / con-args of '
+    'C06) and is not re-proved here',
+    'pool entries are well-formed types or class declarations whose get_type() is a well-formed type (precondition PoolValid)',
+    'find_irrelevant_type is verified in slice mode (DESIGN 2.7): choose_type, get_irrelevant_parameterized_type and the '
+    'dict comprehension building type_args_map are havocked (listed under abstracted statements); its obligations sit at '
+    'every return statement (site_return; a return of an unlisted form is a failed obligation)',
+    'sets of IR types: the modelled set is a superset of the run-time set (an equal element is not added twice, discard '
+    'removes equal elements); only universal / negative membership statements are made about them, positive ones modulo ==',
+    'to_type is modelled as a function symbol constrained by its postconditions inside the result comprehension',
 ]
-NOT_UNDER_CONTRACT = ['src.ir.type_utils._find_types', 'find_subtypes', 'find_supertypes', 'find_irrelevant_type',
-                      'get_irrelevant_parameterized_type', '_construct_related_types', '_find_candidate_type_args (C17 sites only)']
+ASSUMPTIONS = [
+    'proved (all pools, queries, flags): every element of a subtype-search result is -- or, for a bare generic class when '
+    'concrete types are requested, is an instantiation of -- a type for which the type system answered is_subtype(T) '
+    '(hence Sub by C06), or the query itself exactly when asked for, or the one element built by _construct_related_types; '
+    'no uninstantiated generic class when concrete types are requested; the irrelevant-type search returns None for the '
+    'top type, runs both searches (include_self, concrete_only) on the query or on the bound of a type variable, and a pool '
+    'member it returns is (modulo ==) in neither complete result list, is not the top type and not a bare generic class; a '
+    're-instantiated generic class is returned only if is_subtype answers False both ways.  NOT proved (bounded part): '
+    'that the two search results contain ALL relatives (completeness = exactness of C06), _construct_related_types, '
+    'get_irrelevant_parameterized_type',
+]
+NOT_UNDER_CONTRACT = ['src.ir.type_utils._construct_related_types', 'src.ir.type_utils._find_candidate_type_args (C17 sites only)',
+                      'src.ir.type_utils._replace_type_argument', 'src.ir.type_utils.get_irrelevant_parameterized_type',
+                      'src.ir.type_utils.choose_type']
+
+def custom_proof(tier):
+    """the return-site clause of find_irrelevant_type speaks about the locals `supertypes` / `subtypes` as the results of the
+    two searches: each is bound exactly once, by that call, and never changed (syntactic, from the real AST)"""
+    from pyvc import statecheck, frontend
+    fe = frontend.Frontend(os.environ.get('HEPH_REPO', '/repo'))
+    q = 'src.ir.type_utils.find_irrelevant_type'
+    return (statecheck.bound_once_to_call(fe, q, 'supertypes', 'find_supertypes')
+            + statecheck.bound_once_to_call(fe, q, 'subtypes', 'find_subtypes'))
+
 
 from props import C09_bounded as _b   # noqa: E402
 bounded = _b.bounded
